@@ -246,6 +246,8 @@ class Normalizer:
         if k == "attr":
             return patom(self.attr(n))
         if k == "sub":
+            if n[2][0] == "const" and isinstance(n[2][1], int) and not isinstance(n[2][1], bool) and n[2][1] >= 0:
+                return patom(("item", self.canon(n[1]), n[2][1]))  # x[i] == i-th element of an unpacking
             return patom(("sub", self.canon(n[1]), self.index(n[2])))
         if k == "slice":
             return patom(self.index(n))
